@@ -741,6 +741,36 @@ def run_dense(case):
     return out
 
 
+# --------------------------------------------------------------------------- geometries hours into a recording
+HOURS = {
+    "pt_3h": ("Point", [10800.0, 1000.0]), "pt_day": ("Point", [86459.94, 22050.5]),
+    "mp_3h": ("MultiPoint", [[12000.0, 1000.0], [12000.0, 3000.0]]), "ls_vert_10h": ("LineString", [[36000.0, 500.0], [36000.0, 2500.0]]),
+    "ts_10h": ("TimeStamp", 36000.0), "ls_10h": ("LineString", [[36000.0, 500.0], [36001.5, 2500.0]]),
+}
+HOURS_BUFFERS = [(0.0, 100.0), (0.0, 1.0), (0.5, 0.0), (0.5, 125.0)]
+
+
+def run_hours(case):
+    """A valid result that covers the original for geometries two to twenty-four hours into a recording (between the pooled
+    small times and the pooled 2^20 s), zero buffers included."""
+    out = Out(case)
+    gtype, coords = HOURS[case["geom"]]
+    tb, fb = case["buffer"]
+    r = call(mkgeom(gtype, coords), tb, fb)
+    out.transitions = out.validated = 1
+    out.nontrivial = True
+    cls = {"kind": "hours_into_recording", "type": gtype, "geom": case["geom"], "root": "hours", "depth": 0, "fn": "buffer_geometry"}
+    if not out.expect("valid_result", r[0] == "ok", list(r) if r[0] != "ok" else None, "a valid geometry", cls):
+        return out
+    if gtype in TIME_ONLY:
+        return out
+    res = to_shape(r[1].type, raw(r[1].coordinates))
+    exc = cover_excess(to_shape(gtype, coords), res, units((tb, fb)))
+    out.expect("contains_original", exc is not None and exc <= DENSE_TOL, exc, "<= 1e-6 buffer units", cls)
+    out.klass = "hours:%s" % ("ok" if not out.viol else "viol")
+    return out
+
+
 def run_maxf(case):
     """Geometries that reach MAX_FREQUENCY buffered in frequency by values b with (MAX * (1 / b)) / (1 / b) != MAX in doubles (and a
     few others): the result is a geometry of the domain (the call returns; nothing above MAX_FREQUENCY)."""
@@ -760,7 +790,7 @@ def run_maxf(case):
 
 
 def blocks(tier):
-    return [{"root": pid, "tier": tier} for pid in POOL_IDS] + [{"root": "@maxf", "tier": tier}, {"root": "@dense", "tier": tier}] + [{"root": "@twins", "tier": tier}, {"root": "@repr", "tier": tier},
+    return [{"root": pid, "tier": tier} for pid in POOL_IDS] + [{"root": "@maxf", "tier": tier}, {"root": "@dense", "tier": tier}, {"root": "@hours", "tier": tier}] + [{"root": "@twins", "tier": tier}, {"root": "@repr", "tier": tier},
                                                                 {"root": "@strict", "tier": tier}]
 
 
@@ -774,6 +804,11 @@ def run_block(block, rec):
     if root == "@twins":
         for case in twin_cases():
             rec.add(run_twin(case))
+        return
+    if root == "@hours":
+        for gid in HOURS:
+            for b in HOURS_BUFFERS:
+                rec.add(run_hours({"hours": 1, "geom": gid, "buffer": list(b)}))
         return
     if root == "@dense":
         for gid in DENSE:
@@ -851,6 +886,8 @@ def replay_case(case):
         return run_maxf(case)
     if "dense" in case:
         return run_dense(case)
+    if "hours" in case:
+        return run_hours(case)
     if "strict" in case:
         return run_strict(case)
     use_tier(case.get("tier"))
